@@ -99,7 +99,25 @@ def tensor_from_spec(s):
         t = torch.randint(0, 2, shape, generator=g).to(torch.bool)
     else:
         t = torch.randint(-100 if dt != torch.uint8 else 0, 100, shape, generator=g).to(dt)
-    if s.get("grad") and (dt.is_floating_point or dt.is_complex):
+    st = s.get("storage", "own")
+    can_grad = dt.is_floating_point or dt.is_complex
+    if st != "own" and t.numel() > 0 and t.ndim >= 1:
+        # the same values as a VIEW into a larger storage (a row of a big buffer, a slice of a
+        # trainable tensor, a transposed view): what a model's parameters and activations often are
+        slack = {"view_small": 64, "view_big_leaf": 1 << 19, "view_big_nonleaf": 1 << 19,
+                 "transposed": 0}[st]
+        if st == "transposed":
+            t = t.transpose(0, -1).contiguous().transpose(0, -1)     # same values, other strides
+        else:
+            buf = torch.zeros(slack + t.numel() + 5, dtype=dt)
+            if st == "view_big_nonleaf" and s.get("grad") and can_grad:
+                with torch.no_grad():
+                    buf[3:3 + t.numel()] = t.reshape(-1)
+                buf.requires_grad_(True)
+                return buf[3:3 + t.numel()].view(t.shape)              # non-leaf, requires grad
+            buf[3:3 + t.numel()] = t.reshape(-1)
+            t = buf[3:3 + t.numel()].view(t.shape)
+    if s.get("grad") and can_grad:
         t.requires_grad_(True)
     return t
 
@@ -614,7 +632,9 @@ def gen_tensor(rng):
     dt = rng.pick(T_DTYPES)
     shape = list(rng.pick(SHAPES[:11]))
     return {"k": "tensor", "dtype": dt, "shape": shape, "fill": rng.randrange(1000),
-            "grad": rng.chance(0.4)}
+            "grad": rng.chance(0.4),
+            "storage": rng.fork("storage").pick(["own"] * 10 + ["view_small", "view_big_leaf",
+                                                                "view_big_nonleaf", "transposed"])}
 
 
 def gen_hashable(rng):
